@@ -167,7 +167,7 @@ def gen_c17(rng, oracle, index, tier="quick"):
     for it in sorted(g.its):
         if rng.random() < 0.7:
             g.emit({"op": "drain", "it": it})
-    meta = {"profile": p, "fired": g.fired, "events": g.events, "skipped": g.skipped, "mode": mode,
+    meta = {"profile": p, "fired": g.fired, "events": g.events, "skipped": g.skipped, "hits": g.hits, "mode": mode,
             "restored": len(restored)}
     return g.ops, g.refs, meta
 
